@@ -209,3 +209,22 @@ Proof.
     by (subst m; vm_compute; lia).
   split; [exact Q|]. intro k. rewrite (drain_stuck k _ S0). exact C.
 Qed.
+
+(* ---- Close of the asynchronous loggers: both rings are drained whatever the writers' Close return ---- *)
+Lemma async_close_drains_both_l : forall (n : nat) (es_out es_err : list rev) (e_fails o_fails : bool),
+  let c := async_close async_close_closes_both e_fails o_fails in
+  let go := ring_after_close (snd c) (rrun (rinit n) es_out) in
+  let ge := ring_after_close (fst c) (rrun (rinit n) es_err) in
+  c = (true, true) /\
+  length (rsent go) - length (rdeliv go) = sum (ralerts go) /\
+  length (rsent ge) - length (rdeliv ge) = sum (ralerts ge).
+Proof.
+  intros n es_out es_err e_fails o_fails.
+  assert (F : async_close_closes_both = true) by reflexivity.
+  unfold async_close. rewrite F. cbv zeta. simpl fst. simpl snd. unfold ring_after_close.
+  split; [reflexivity|]. split.
+  - destruct (ring_accounts_for_drops_l n es_out) as (_ & _ & _ & _ & H).
+    destruct (H _ (Nat.le_refl _)) as (_ & _ & E). exact E.
+  - destruct (ring_accounts_for_drops_l n es_err) as (_ & _ & _ & _ & H).
+    destruct (H _ (Nat.le_refl _)) as (_ & _ & E). exact E.
+Qed.
